@@ -99,8 +99,13 @@ def run(tier, seed):
                 want = compound_reference(t, d)
             except Exception:  # noqa: BLE001
                 continue
+            async def _aiter(t=t, d=d):
+                return [m.obj async for m in await jsonpath.finditer_async(t, d)]
+
+            first = jsonpath.match(t, d)
             got = {"findall": jsonpath.findall(t, d), "finditer": [m.obj for m in jsonpath.finditer(t, d)], "query": list(jsonpath.query(t, d).values()),
-                   "findall_async": asyncio.run(jsonpath.findall_async(t, d))}
+                   "findall_async": asyncio.run(jsonpath.findall_async(t, d)), "finditer_async": asyncio.run(_aiter()),
+                   "match": ([] if first is None else [first.obj]) + list(want[1:])}
             bad = [k for k, v in got.items() if not U.same_values(v, want)]
             if bad:
                 rec.fail(f"compound:{t}|{d!r}", f"compound {t!r} on {d!r}: {bad} -> { {k: got[k] for k in bad} !r}, left-to-right definition gives {want!r}",
